@@ -70,49 +70,75 @@ fn exec<V: Full>(op: Op, fx: &Fix) -> Result<OpOut, String> {
     Ok(OpOut { result: r, draws: log })
 }
 
-/// what the specification prescribes for this operation given exactly these draws (None: not modelled)
-fn model<V: Full>(op: Op, fx: &Fix, draws: &[Draw]) -> Option<String> {
+/// Provenance oracle, independent of how the library segments or orders its draws: every random field of
+/// the output must be explained by some window of the bytes drawn *during this call* (directly, or through
+/// the specification's derivation for v1/v2 nonces and ephemeral keys).
+/// Ok(true) explained, Ok(false) not explained, Err(()) not modelled for this operation.
+fn provenance<V: Full>(op: Op, fx: &Fix, out: &str, draws: &[Draw]) -> Result<bool, ()> {
     let msg = b"the same message every time";
+    let stream: Vec<u8> = draws.iter().filter(|d| !d.failed).flat_map(|d| d.bytes.iter().copied()).collect();
+    let has = |field: &[u8]| !field.is_empty() && stream.windows(field.len()).any(|w| w == field);
+    let find = |field: &[u8]| stream.windows(field.len().max(1)).position(|w| w == field);
     match op {
         Op::Encrypt => {
-            let d = draws.first()?;
-            let key: [u8; 32] = fx.local[..].try_into().ok()?;
-            if d.bytes.len() != V::nonce_len() {
-                return None;
+            let Some((_, body, _)) = split_token(out) else { return Ok(false) };
+            let nl = V::nonce_len();
+            if body.len() < nl {
+                return Ok(false);
             }
-            let body = spec::local_encrypt(V::VER, "", &key, &d.bytes, msg, b"f", b"");
-            Some(ops::join_token(&format!("v{}.local.", V::VER), &body, Some(b"f")))
+            if V::VER >= 3 {
+                Ok(has(&body[..nl]))
+            } else {
+                // v1 / v2: the token nonce is MAC(key = fresh bytes, message)
+                let key: [u8; 32] = fx.local[..].try_into().map_err(|_| ())?;
+                Ok(stream.windows(nl).any(|w| spec::local_encrypt(V::VER, "", &key, w, msg, b"f", b"") == body))
+            }
         }
-        Op::GenLocal => Some(hex::encode(&draws.first()?.bytes)),
-        Op::GenSecret => match V::VER {
-            2 | 4 => {
-                let seed: [u8; 32] = draws.last()?.bytes[..].try_into().ok()?;
-                let vk = ed25519_dalek::SigningKey::from_bytes(&seed).verifying_key();
-                Some(hex::encode([&seed[..], &vk.to_bytes()[..]].concat()))
+        Op::GenLocal => Ok(has(&hex::decode(out).unwrap_or_default())),
+        Op::GenSecret => {
+            let k = hex::decode(out).unwrap_or_default();
+            match V::VER {
+                2 | 4 => Ok(k.len() == 64 && has(&k[..32])),
+                3 => Ok(has(&k)),
+                _ => Err(()),
             }
-            3 => Some(hex::encode(&draws.last()?.bytes)),
-            _ => None,
-        },
+        }
         Op::Pie => {
-            let n: [u8; 32] = draws.first()?.bytes[..].try_into().ok()?;
-            let blob = spec::pie_wrap(V::VER, ".local-wrap.pie.", fx.wrapping[..].try_into().ok()?, &n, &fx.local);
-            Some(pk::join(&format!("k{}.local-wrap.pie.", V::VER), &blob))
+            let Some((_, b)) = pk::split(out) else { return Ok(false) };
+            let t = V::tag_len().max(32);
+            Ok(b.len() >= t + 32 && has(&b[t..t + 32]))
         }
         Op::Pbkw => {
-            let prefix = [&draws.first()?.bytes[..], &params_to_bytes::<V>(&params_for::<V>(Cost::Min))[..], &draws.get(1)?.bytes[..]].concat();
-            let blob = spec::pbkw_wrap(V::VER, ".secret-pw.", b"pw", &prefix, &fx.secret)?;
-            Some(pk::join(&format!("k{}.secret-pw.", V::VER), &blob))
+            let Some((_, b)) = pk::split(out) else { return Ok(false) };
+            let (sl, pl, nl) = if V::VER == 1 || V::VER == 3 { (32, 4, 16) } else { (16, 16, 24) };
+            if b.len() < sl + pl + nl {
+                return Ok(false);
+            }
+            // salt and nonce must come from disjoint parts of what was drawn
+            match (find(&b[..sl]), find(&b[sl + pl..sl + pl + nl])) {
+                (Some(i), Some(j)) => Ok(i + sl <= j || j + nl <= i),
+                _ => Ok(false),
+            }
         }
         Op::Seal => {
-            let key: [u8; 32] = fx.local[..].try_into().ok()?;
-            let blob = match V::VER {
-                1 => spec::seal_rsa(&fx.pke_pub, &draws.first()?.bytes, &key)?,
-                3 => spec::seal_p384(&fx.pke_pub, &draws.last()?.bytes, &key)?,
-                _ => spec::seal_x25519(V::VER, fx.pke_pub[..].try_into().ok()?, draws.first()?.bytes[..].try_into().ok()?, &key)?,
+            let Some((_, b)) = pk::split(out) else { return Ok(false) };
+            let key: [u8; 32] = fx.local[..].try_into().map_err(|_| ())?;
+            // the ephemeral secret is not on the wire: some window of the drawn bytes must reproduce the blob
+            let w = match V::VER {
+                1 => 512,
+                3 => 48,
+                _ => 32,
             };
-            Some(pk::join(&format!("k{}.seal.", V::VER), &blob))
+            Ok(stream.windows(w).any(|win| {
+                let m = match V::VER {
+                    1 => spec::seal_rsa(&fx.pke_pub, win, &key),
+                    3 => spec::seal_p384(&fx.pke_pub, win, &key),
+                    _ => fx.pke_pub[..].try_into().ok().and_then(|pkb| spec::seal_x25519(V::VER, pkb, win.try_into().ok()?, &key)),
+                };
+                m.as_deref() == Some(&b[..])
+            }))
         }
-        Op::Sign => None,
+        Op::Sign => Err(()),
     }
 }
 
@@ -234,18 +260,14 @@ fn histories<V: Full>(prop: &mut Property, ctx: &Ctx) {
                             (Ok(s), false) => {
                                 // provenance: the output is the specification's function of the bytes drawn during THIS call
                                 if values_owned::<V>(*op) {
-                                    if let Some(m) = model::<V>(*op, &fx, &out.draws) {
-                                        if &m == s {
-                                            o.class("output-is-function-of-own-draws");
-                                        } else {
-                                            o.violate(
-                                                format!("{base}/provenance"),
-                                                format!("history {h:?} step {i}: the output is not the specification's function of the random bytes drawn during the call (reused, ignored, truncated or default randomness)"),
-                                                json!({"output": s, "expected_from_draws": m, "draws": out.draws.iter().map(|d| hexs(&d.bytes)).collect::<Vec<_>>()}),
-                                            );
-                                        }
-                                    } else if *op != Op::Sign && !(V::VER == 1 && *op == Op::GenSecret) {
-                                        o.violate(format!("{base}/draw-shape"), format!("history {h:?} step {i}: the operation drew {:?} bytes; the format needs different draws", out.draws.iter().map(|d| d.len).collect::<Vec<_>>()), json!({}));
+                                    match provenance::<V>(*op, &fx, s, &out.draws) {
+                                        Ok(true) => o.class("output-is-function-of-own-draws"),
+                                        Ok(false) => o.violate(
+                                            format!("{base}/provenance"),
+                                            format!("history {h:?} step {i}: a nonce / salt / ephemeral key / generated key of the output is not explained by the random bytes drawn during the call (reused, ignored, truncated, overlapping or default randomness)"),
+                                            json!({"output": s, "draws": out.draws.iter().map(|d| hexs(&d.bytes)).collect::<Vec<_>>()}),
+                                        ),
+                                        Err(()) => {}
                                     }
                                 }
                                 for f in random_fields::<V>(*op, s) {
@@ -359,6 +381,6 @@ pub fn build(ctx: &Ctx) -> Property {
     p.states_counter = None;
     p.assume("RNG failure can be injected only where the library reaches the OS through getrandom 0.3 (paseto-v1..v4 except RSA-PSS signing and RSA key generation, which use rsa's OsRng -> getrandom 0.2): aws-lc aborts inside RAND_bytes and libsodium's randombytes_buf returns void, so for those paths only freshness is checked");
     p.assume("values of the aws-lc DRBG and of OsRng cannot be chosen: there the long-history distinctness run observes the library's RNG (sampling), everything else is enumerated under the owned counter RNG");
-    p.assume("provenance oracle: each output equals the reference model's output for exactly the bytes drawn during that call (C07's models), which implies no draw is reused, ignored, truncated or replaced by a default");
+    p.assume("provenance oracle: every random field of an output (nonce, salt, generated key; for v1/v2 nonces and for ephemeral keys through the specification's derivation) must be explained by some window of the bytes drawn during that call, salt and nonce by disjoint windows; this does not depend on how the library segments or orders its draws");
     p
 }
